@@ -236,6 +236,27 @@ fn choose(st: &mut St, me: Option<usize>) -> Option<usize> {
     Some(pick)
 }
 
+/// Wait until this thread holds the token. A thread that was handed the token but was slow to wake
+/// up may have been taken for OS-blocked meanwhile (the token moved on): it makes itself runnable
+/// again so that the scheduler can pick it later.
+fn wait_for_token<'a>(mut g: std::sync::MutexGuard<'a, Option<St>>, me: usize) -> std::sync::MutexGuard<'a, Option<St>> {
+    loop {
+        match g.as_mut() {
+            Some(st) => {
+                if st.th[me] == ThState::OsBlocked {
+                    st.th[me] = ThState::Runnable;
+                    CV.notify_all();
+                }
+                if st.cur == me {
+                    return g;
+                }
+            }
+            None => return g,
+        }
+        g = CV.wait_timeout(g, std::time::Duration::from_millis(100)).unwrap().0;
+    }
+}
+
 fn hand_over<'a>(
     mut g: std::sync::MutexGuard<'a, Option<St>>,
     me: usize,
@@ -250,14 +271,8 @@ fn hand_over<'a>(
         st.last_progress = std::time::Instant::now();
     }
     CV.notify_all();
-    loop {
-        g = CV.wait(g).unwrap();
-        match g.as_ref() {
-            Some(st) if st.cur == me => return g,
-            Some(_) => {}
-            None => return g,
-        }
-    }
+    g = CV.wait_timeout(g, std::time::Duration::from_millis(100)).unwrap().0;
+    wait_for_token(g, me)
 }
 
 /// A thread that was declared OS-blocked (and has been running without the token since the
@@ -269,14 +284,7 @@ fn reenter<'a>(mut g: std::sync::MutexGuard<'a, Option<St>>, me: usize) -> std::
     }
     g.as_mut().unwrap().th[me] = ThState::Runnable;
     CV.notify_all();
-    loop {
-        match g.as_ref() {
-            Some(st) if st.cur == me => return g,
-            Some(_) => {}
-            None => return g,
-        }
-        g = CV.wait(g).unwrap();
-    }
+    wait_for_token(g, me)
 }
 
 /// A scheduling point. No-op outside a scheduled run.
@@ -426,22 +434,8 @@ where
                             // wait for the token. (If the machine is so loaded that this thread was
                             // given the token, did not get the CPU for a while and was therefore taken
                             // for OS-blocked, it makes itself runnable again here.)
-                            let mut g = SCHED.lock().unwrap();
-                            loop {
-                                match g.as_mut() {
-                                    Some(st) => {
-                                        if st.th[i] == ThState::OsBlocked {
-                                            st.th[i] = ThState::Runnable;
-                                            CV.notify_all();
-                                        }
-                                        if st.cur == i {
-                                            break;
-                                        }
-                                    }
-                                    None => break,
-                                }
-                                g = CV.wait_timeout(g, std::time::Duration::from_millis(100)).unwrap().0;
-                            }
+                            let g = SCHED.lock().unwrap();
+                            let _g = wait_for_token(g, i);
                         }
                         let r = std::panic::catch_unwind(std::panic::AssertUnwindSafe(|| body(i)));
                         // finish: hand the token to someone else
@@ -475,6 +469,8 @@ where
             let first = choose(st, None).unwrap_or(COORD);
             st.cur = first;
             CV.notify_all();
+            // (development knob: VERIF_BLOCK_MS lowers the threshold to exercise this path deliberately)
+            let block_ms: u64 = std::env::var("VERIF_BLOCK_MS").ok().and_then(|v| v.parse().ok()).unwrap_or(1500);
             // wait until every thread is done (token returns to COORD), with a real-time watchdog
             let deadline = std::time::Instant::now() + std::time::Duration::from_secs(600);
             loop {
@@ -484,7 +480,7 @@ where
                         break;
                     }
                     let idle = st.last_progress.elapsed();
-                    if st.cur != COORD && st.th[st.cur] != ThState::Done && idle > std::time::Duration::from_millis(1500) {
+                    if st.cur != COORD && st.th[st.cur] != ThState::Done && idle > std::time::Duration::from_millis(block_ms) {
                         // the token holder is stuck outside the scheduler: let someone else run
                         let t = st.cur;
                         st.th[t] = ThState::OsBlocked;
@@ -506,7 +502,7 @@ where
                     hang = true;
                     break;
                 }
-                let (ng, _) = CV.wait_timeout(g, std::time::Duration::from_millis(50)).unwrap();
+                let (ng, _) = CV.wait_timeout(g, std::time::Duration::from_millis(block_ms.min(50).max(1))).unwrap();
                 g = ng;
             }
         }
